@@ -1,1 +1,2 @@
-// harness stub: nothing here yet
+// body of `mod verif_hx` in daemon/src/event/mod.rs
+mod c01 { include!(concat!(env!("VERIF_HX_DIR"), "/daemon/event_c01_hx.rs")); }
